@@ -8,6 +8,11 @@ import (
 // Parse pares string to struct Endpoint, like tcp -h 10.219.139.142 -p 19386 -t 60000
 func Parse(endpoint string) Endpoint {
 	// tcp -h 10.219.139.142 -p 19386 -t 60000
+	fields := strings.Fields(endpoint)
+	if len(endpoint) < 3 || len(fields) == 0 {
+		// too short to carry a protocol, or blank: nothing to parse
+		return Endpoint{}
+	}
 	proto := endpoint[0:3]
 	pFlag := flag.NewFlagSet(proto, flag.ContinueOnError)
 	var host, bind string
@@ -21,7 +26,7 @@ func Parse(endpoint string) Endpoint {
 	pFlag.IntVar(&weightType, "v", 0, "weight type") // 权重类型
 	pFlag.IntVar(&authType, "e", 0, "auth type")     // 鉴权类型: enum AUTH_TYPE { AUTH_TYPENONE = 0, AUTH_TYPELOCAL = 1};
 	pFlag.StringVar(&bind, "b", "", "bind")
-	_ = pFlag.Parse(strings.Fields(endpoint)[1:])
+	_ = pFlag.Parse(fields[1:])
 	isTcp := int32(0)
 	if proto == "tcp" {
 		isTcp = int32(1)
